@@ -103,6 +103,14 @@ macro_rules! ep {
     };
 }
 
+/// Malformed input is reported through the error type: formatting that error
+/// (Display and Debug) is part of the entry point and must return normally too.
+fn fe<T, E: std::fmt::Display + std::fmt::Debug>(r: &Result<T, E>) {
+    if let Err(e) = r {
+        let _ = format!("{} {:?}", e, e);
+    }
+}
+
 // ---------------------------------------------------------------------------
 // csh-style expansion count (the harness's own expander): used to decide
 // whether exponential cost is the *specified* semantics of a brace pattern.
@@ -319,7 +327,11 @@ fn corrupt_some(rng: &mut Rng, doc: &mut Vec<u8>, other: &[u8], log: &mut Vec<St
 // valid documents
 // ---------------------------------------------------------------------------
 
-const PLIST_LINES: [&str; 30] = [
+const PLIST_LINES: [&str; 34] = [
+    "@name caf\u{e9}-1.0\u{e9}",
+    "@pkgdep d\u{e9}p>=1\u{20ac}",
+    "@owner r\u{f6}\u{f6}t\u{1f600}",
+    "@blddep x-1.0\u{65e5}",
     "@comment $NetBSD$",
     "@name foo-1.0",
     "@pkgdep dep-pkg1-[0-9]*",
@@ -510,6 +522,25 @@ fn exercise_pattern(ctx: &mut Ctx, pat: &Pattern, names: &[String]) {
     if text.contains('{') {
         ctx.probe("alternate-pattern-matched");
     }
+    // witnesses: names derived from the pattern text itself (metacharacters
+    // replaced), with and without their dashes, so that both candidates of a
+    // best_match really match and dash-less names are ranked too
+    let witness: String = text
+        .chars()
+        .filter_map(|c| match c {
+            '*' | '{' | '}' | '[' | ']' | '<' | '>' | '=' | ',' => None,
+            '?' => Some('x'),
+            c => Some(c),
+        })
+        .take(48)
+        .collect();
+    let mut extended: Vec<String> = names.to_vec();
+    if !witness.is_empty() {
+        extended.push(witness.clone());
+        extended.push(witness.replace('-', ""));
+        extended.push(format!("{}-", witness));
+    }
+    let names = &extended;
     for n in names {
         let m = pat.matches(n);
         ep!(ctx, "Pattern::matches", m);
@@ -537,6 +568,7 @@ fn pipeline_a(doc: &[u8], script: &[ReadStep], buffered: Option<usize>, ctx: &mu
             res
         }
     };
+    fe(&res);
     ep!(ctx, "ScanIndex::from_reader", res.is_ok());
     let text = String::from_utf8_lossy(doc).into_owned();
     let mut names: Vec<String> = Vec::new();
@@ -562,6 +594,7 @@ fn pipeline_a(doc: &[u8], script: &[ReadStep], buffered: Option<usize>, ctx: &mu
         }
         if let Some(v) = line.strip_prefix("PKG_LOCATION=") {
             let r = PkgPath::new(clip(v, 200));
+            fe(&r);
             ep!(ctx, "PkgPath::new", r.is_ok());
             if let Ok(p) = r {
                 let again = PkgPath::from_str(&p.as_full_path().to_string_lossy());
@@ -572,6 +605,7 @@ fn pipeline_a(doc: &[u8], script: &[ReadStep], buffered: Option<usize>, ctx: &mu
             for tok in v.split_whitespace().take(12) {
                 let tok = clip(tok, 160);
                 let r = Depend::new(tok);
+                fe(&r);
                 ep!(ctx, "Depend::new", r.is_ok());
                 if let Ok(d) = r {
                     if depends.len() < 24 {
@@ -580,9 +614,11 @@ fn pipeline_a(doc: &[u8], script: &[ReadStep], buffered: Option<usize>, ctx: &mu
                 }
                 if let Some((p, _)) = tok.split_once(':') {
                     let r = Pattern::new(p);
+                    fe(&r);
                     ep!(ctx, "Pattern::new", r.is_ok());
                     if p.contains(['<', '>']) && !p.contains(['{', '}']) {
                         let d = Dewey::new(p);
+                        fe(&d);
                         ep!(ctx, "Dewey::new", d.is_ok());
                         if let Ok(d) = d {
                             for n in names.iter().take(4) {
@@ -696,14 +732,17 @@ fn pipeline_b(
         let mut texts: Vec<Option<String>> = Vec::new();
         for f in 0..NFILES {
             let r = pkg.read_metadata(entry(f));
+            fe(&r);
             ep!(ctx, "Package::read_metadata", r.is_ok());
             if let Ok(s) = &r {
                 let m = md.read_metadata(entry(f), s);
+                fe(&m);
                 ep!(ctx, "Metadata::read_metadata", m.is_ok());
             }
             texts.push(r.ok());
         }
         let v = md.is_valid();
+        fe(&v);
         ep!(ctx, "Metadata::is_valid", v.is_ok());
         let _ = (
             md.build_info(),
@@ -743,6 +782,7 @@ fn pipeline_b(
                 let k = it.next().unwrap_or("");
                 let v = it.next().unwrap_or("");
                 let key = SummaryVariable::from_str(k);
+                fe(&key);
                 ep!(ctx, "SummaryVariable::from_str", key.is_ok());
                 match key {
                     Ok(SummaryVariable::BuildDate) => sum.set_build_date(v),
@@ -770,6 +810,7 @@ fn pipeline_b(
         }
         if let Some(raw) = &raw {
             let pl = Plist::from_bytes(raw);
+            fe(&pl);
             ep!(ctx, "Plist::from_bytes", pl.is_ok());
             if let Ok(pl) = &pl {
                 let _ = (pl.pkgname(), pl.display(), pl.build_depends(), pl.pkgdirs(), pl.pkgrmdirs());
@@ -793,6 +834,7 @@ fn pipeline_b(
             }
             for line in raw.split(|&c| c == b'\n').take(200) {
                 let e = PlistEntry::from_bytes(line);
+                fe(&e);
                 ep!(ctx, "PlistEntry::from_bytes", e.is_ok());
             }
         }
@@ -800,6 +842,7 @@ fn pipeline_b(
         ep!(ctx, "Summary::Display", true);
         let _ = (sum.is_completed(), sum.pkgbase(), sum.pkgversion(), sum.description_as_str());
         let parsed = Summary::from_str(&text);
+        fe(&parsed);
         ep!(ctx, "Summary::from_str", parsed.is_ok());
         // the entry travels on as a pkg_summary stream, chunked
         let stream_bytes = format!("{}\n", text).into_bytes();
@@ -815,13 +858,19 @@ fn pipeline_b(
             lens.push(stream_bytes.len() - pos);
         }
         let mut pos = 0usize;
+        let mut errors_seen = 0;
         for c in lens {
             let r = ss.write(&stream_bytes[pos..pos + c]);
             ctx.step("write", c as u64, r.is_ok() as u64);
+            fe(&r);
             ep!(ctx, "SummaryStream::write", r.is_ok());
             pos += c;
             if r.is_err() {
-                break;
+                // a caller that logs the error and carries on writing
+                errors_seen += 1;
+                if errors_seen > 3 {
+                    break;
+                }
             }
         }
         let _ = ss.flush();
@@ -854,6 +903,7 @@ fn pipeline_c(
 ) -> Outcome {
     for n in alg_names {
         let r = Digest::from_str(n);
+        fe(&r);
         ep!(ctx, "Digest::from_str", r.is_ok());
         // the same word as the first token of a distinfo line
         let line = format!("{} (file.tgz) = 00\n", n);
@@ -887,11 +937,16 @@ fn pipeline_c(
         }
         let p = base.join(&e.filename);
         let r = di.verify_size(&p);
+        fe(&r);
         ep!(ctx, "Distinfo::verify_size", r.is_ok());
         let rs = di.verify_checksums(&p);
+        for r in &rs {
+            fe(r);
+        }
         ep!(ctx, "Distinfo::verify_checksums", rs.iter().all(|r| r.is_ok()));
         for a in ALGS {
             let r = di.verify_checksum(&p, a);
+            fe(&r);
             ep!(ctx, "Distinfo::verify_checksum", r.is_ok());
         }
         let r = e.verify_size(&p);
@@ -907,6 +962,7 @@ fn pipeline_c(
     for l in lookups.iter().take(8) {
         let p = Path::new(OsStr::from_bytes(&l.0));
         let r = di.find_entry(p);
+        fe(&r);
         ep!(ctx, "Distinfo::find_entry", r.is_ok());
         let _ = di.get_distfile(p);
         let _ = di.get_patchfile(p);
@@ -917,6 +973,7 @@ fn pipeline_c(
         let tok: Vec<u8> = line.iter().cloned().take_while(|c| !c.is_ascii_whitespace()).take(40).collect();
         if let Ok(s) = std::str::from_utf8(&tok) {
             let r = Digest::from_str(s);
+            fe(&r);
             ep!(ctx, "Digest::from_str", r.is_ok());
         }
     }
@@ -926,6 +983,7 @@ fn pipeline_c(
             let log = r.log();
             let res = if i == 0 { a.hash_file(&mut r) } else { a.hash_patch(&mut r) };
             log.borrow().absorb(ctx, "read");
+            fe(&res);
             ep!(ctx, "Digest::hash_file/hash_patch", res.is_ok());
         }
     }
@@ -981,9 +1039,10 @@ fn pipeline_d(seed: u64, ops: &[DOp], ctx: &mut Ctx) -> Outcome {
                     let c = c.min(t.len() - pos);
                     let r = stream.write(&t[pos..pos + c]);
                     ctx.step("write", c as u64, r.is_ok() as u64);
+                    fe(&r);
                     ep!(ctx, "SummaryStream::write", r.is_ok());
                     pos += c;
-                    if r.is_err() || pos >= t.len() {
+                    if pos >= t.len() {
                         break;
                     }
                 }
@@ -1056,7 +1115,26 @@ fn pipeline_e(doc: &[u8], script: &[ReadStep], hash_seed: u64, ctx: &mut Ctx) ->
     let mut stream = SummaryStream::new();
     let r = std::io::copy(&mut reader, &mut stream);
     log.borrow().absorb(ctx, "read");
+    fe(&r);
     ep!(ctx, "io::copy into SummaryStream", r.is_ok());
+    if r.is_err() {
+        // a caller that logs the error and carries on with the rest of the
+        // document, and then with a further document, on the same stream object
+        let delivered = log.borrow().delivered.min(doc.len());
+        let mut errs = 0;
+        for chunk in doc[delivered..].chunks(97).chain(std::iter::once(&b"\n\nPKGNAME=x-1\n\n"[..])) {
+            let w = stream.write(chunk);
+            ctx.step("write-after-error", chunk.len() as u64, w.is_ok() as u64);
+            fe(&w);
+            ep!(ctx, "SummaryStream::write after an error", w.is_ok());
+            if w.is_err() {
+                errs += 1;
+                if errs > 4 {
+                    break;
+                }
+            }
+        }
+    }
     let _ = stream.to_string();
     let names: Vec<String> = stream
         .entries()
